@@ -130,6 +130,18 @@ def invalid_vertices_of_participating_meshes(z):
     dim = z[p] - z[p + 1]
     return [(m, v, vix[v]) for m, (vs, fl) in enumerate(meshes) if not fl[2] for v in vs if not (0 <= vix[v] < dim)], dim
 
+def rows_of_excluded_vertices(z):
+    """vertices that belong to isolated (excluded) meshes only and nevertheless carry an unknown, and the number of rows
+    of the potential block: "one row per non-excluded vertex" read from right to left (seeded C10-16)"""
+    p = 0; nv = z[p]; p += 1; vix = z[p:p + nv]; p += nv
+    nm = z[p]; p += 1; meshes = []
+    for m in range(nm):
+        nvm = z[p]; vs = z[p + 1:p + 1 + nvm]; p += 1 + nvm; nt = z[p]; p += 1 + 4 * nt
+        fl = z[p:p + 3]; p += 3; meshes.append((vs, fl))
+    used = set(v for vs, fl in meshes if not fl[2] for v in vs)
+    listed = set(v for vs, fl in meshes for v in vs)
+    return [(v, vix[v]) for v in sorted(listed - used) if vix[v] != 4294967295]
+
 def shape_summary(z):
     p = 0; nv = z[p]; p += 1; vix = z[p:p + nv]; p += nv
     nm = z[p]; p += 1; meshes = []
@@ -169,6 +181,9 @@ def main(replay=None):
         for kind in big:                        # 42-vertex meshes
             old_ok = kind.startswith("nested") or kind.startswith("shell")
             specs.append((kind, 1, old_ok and rng.random() < 0.5, rng.randrange(1 << 30)))
+        # excluded (isolated) meshes on the symmetric 42-vertex spheres, default ordering: the bookkeeping of excluded vertices
+        # (an ordered set keyed by coordinates) is exercised with many equal and zero coordinates (seeded C10-16)
+        specs.append(("shell00", 1, False, rng.randrange(1 << 30)))
     write_models(ck, specs)
     ids = list(range(len(specs)))
     t0 = time.time()
@@ -193,6 +208,11 @@ def main(replay=None):
             ck.violation("indices: vertex of a participating mesh without a row (%s)" % kind,
                          "%s: %d vertices of meshes that take part in the computation have no valid unknown index (first: mesh %d vertex %d index %d, dimension %d); theorem participating_mesh_vertices_have_rows" % (kind, len(badv), badv[0][0], badv[0][1], badv[0][2], dimz),
                          dict(kind="indices", specs=[specs[r["id"]]], bad=badv[:10]))
+        exv = rows_of_excluded_vertices(r["shape"]) if not old else []     # OLD_ORDERING numbers every vertex reference, excluded ones included
+        if exv:
+            ck.violation("indices: excluded vertex with a row (%s)" % kind,
+                         "%s: %d vertices that belong only to isolated (excluded) meshes carry an unknown (first: vertex %d index %d): rows that no operator fills - the head matrix has one row per NON-excluded vertex (headmat_dimension)" % (kind, len(exv), exv[0][0], exv[0][1]),
+                         dict(kind="indices", specs=[specs[r["id"]]], bad=exv[:10]))
         # hypothesis of deflate_applied_to_every_conductive_component, checked on the real bookkeeping
         for km, mm in enumerate(summ["meshes"]):
             if mm["outer"] and not mm["isolated"] and not any(km in part for part in summ["parts"]):
